@@ -93,6 +93,9 @@ def device_variants(rng, quick):
     for kind, kw in [("bar", {}), ("bar_hole", dict(probes=False)), ("ring", dict()), ("union", dict(probes=False)), ("cross4", {}), ("ellipse", dict(terminals=False))]:
         dev = zoo.make_device(kind, rng, max_edge_length=1.2, **kw)
         out.append((kind, dev))
+    # a mesh whose index arrays run past 2^16 (more than 11 000 sites: the flattened Voronoi cells have > 65 535 vertices)
+    big = zoo.make_device("bar", rng, max_edge_length=0.066)
+    out.append((f"bar_{len(big.mesh.sites) // 1000}k_sites", big))
     # conductivity set, mesh absent
     d = zoo.make_device("bar", rng, mesh=False)
     d.layer.conductivity = 3.5
